@@ -210,7 +210,10 @@ func c10Cold(c *mon.Ctx) {
 		}
 	}
 	c.Tick()
-	// now the sequential baselines
+	// now the sequential baselines: "the same call made alone" - one goroutine on ONE processor, so that a lint that
+	// spreads its own work over the available processors is compared with its single-processor answer
+	prevProcs := runtime.GOMAXPROCS(1)
+	defer runtime.GOMAXPROCS(prevProcs)
 	day := today()
 	stride := c.Pick(5, 1)
 	for i, o := range W.Objs {
@@ -594,6 +597,7 @@ func c10W4(c *mon.Ctx) {
 	}
 	c.Tick()
 	day := today()
+	runtime.GOMAXPROCS(1) // alone = one goroutine on one processor
 	for k, o := range objs {
 		if res[k] == nil {
 			continue
